@@ -351,5 +351,5 @@ PROFILES = {
     "C17": {"toplevel": 0.9, "gp": 0.6, "cond": 0.4, "missing_key": 0.0, "paths": 0.05, "single": 0.25},
     "C18": {"tail": 0.9, "single": 0.3, "partial": 0.5, "custom_lists": 0.5, "missing_key": 0.0, "paths": 0.05},
     "C19": {"tail": 0.6, "single": 0.2},
-    "C20": {"dpath": 0.6, "header": 0.5, "partial": 0.5, "dup_opts": 0.5, "eq_vals": 0.5, "paths": 0.6, "cond": 0.4},
+    "C20": {"dpath": 0.6, "header": 0.5, "partial": 0.5, "dup_opts": 0.5, "eq_vals": 0.5, "paths": 0.6, "cond": 0.4, "missing_key": 0.12},
 }
